@@ -137,11 +137,14 @@ def _finish_violation(scn: Any, modname: str, desc: Any, ex: sched.Execution, v:
             break
     lw = getattr(scn, "logical_windows", None)
     wins = lw(exm) if lw is not None else windows(exm)
-    if v["signature"].pop("_no_windows", False):
+    nw = v["signature"].pop("_no_windows", False)
+    if nw:
         # the scenario classified the cause itself (schedule-independent signature); the number of
-        # deviations of the minimised schedule stays part of the identity
+        # deviations of the minimised schedule stays part of the identity unless the scenario says the
+        # finding does not depend on the schedule at all ("_no_windows": "schedule-free")
         v["detail"]["windows"] = wins
-        v["signature"]["deviations"] = exm.deviations
+        if nw != "schedule-free":
+            v["signature"]["deviations"] = exm.deviations
     else:
         v["signature"]["windows"] = wins
     v["detail"]["code_windows"] = windows(exm)
